@@ -247,9 +247,9 @@ static void run_actor(int idx)
           got = handles[h]->test();
           res = got ? "true" : "false";
         }
-        if (got && slots[h] != nullptr) {
+        if (got && slots[h] != nullptr && *slots[h] != nullptr) { // nothing was received when the activity failed
           val  = payval(*slots[h]);
-          flag = *slots[h] ? (*slots[h])->size : -1;
+          flag = (*slots[h])->size;
         }
       }
       else {
